@@ -438,6 +438,13 @@ func TestC14Edits(t *testing.T) {
 					t.Fatalf("C14 violated: the schema differs from the reference model\nschema: %s\nmodel:  %s\nhistory: %s", lib, mod, strings.Join(history, "; "))
 				}
 
+				// Lookups are not made after every edit: what they answer must
+				// not depend on whether somebody asked between two edits.
+				if rapid.IntRange(0, 2).Draw(t, "lookup") == 0 {
+					history = append(history, "(no lookup)")
+					return
+				}
+
 				var msg string
 				if p := oracle.Try(func() { msg = invariants(schema, typePool) }); p != nil {
 					t.Fatalf("C14 violated: lookups %s\nhistory: %s", p, strings.Join(history, "; "))
